@@ -1,5 +1,61 @@
-import Secp.Hand.History
-/-! # C10 — placeholder: theorems are being added in this session -/
+import Secp.Proofs.History
+/-!
+# C10 — any history of element and scalar operations matches the abstract group model
+
+Concrete machine (`Hand.History.cstep`): pools of projective limb triples and Montgomery scalars, each step assembled from
+the model of the API (`Hand.Element.*`, `Hand.ElementL.decode`, `Hand.Group.*`, `Hand.Scalar.*`), the generated formulas
+underneath; receiver/argument aliasing is part of the operation (`add i (some i)` runs the generated self-aliased
+specialisation). Abstract machine (`astep`): every variable is a point of the curve group (`Option (ℕ × ℕ)`) or an integer
+mod n, steps written with `Spec.padd/pneg/smul/decode`, RFC 9380 and plain modular arithmetic. `HInv` = every element is
+a valid projective point of the curve, every scalar canonical. Tied to the code by the families `history`/`historylong`
+(same op sequences on the real API, three-way comparison of raw limbs, Encode, IsIdentity, Equal, IsZero after every step).
+-/
 namespace C10
-theorem model_is_total : True := trivial
+open Spec Hand.History
+
+/-- **one step**: from any valid state, any (well-formed) operation — any receiver, any argument, the same variable
+included — keeps every element a valid curve point and every scalar canonical, commutes with the abstraction, and
+returns the abstract machine's error tag -/
+theorem step_refines (H : Bytes → Bytes) (hH : HashOK H) (s : CState) (op : Op) (hI : HInv s) (hop : WfOp op) :
+    HInv (cstep H s op).1 ∧ absS (cstep H s op).1 = (astep H (absS s) op).1 ∧
+    (cstep H s op).2 = (astep H (absS s) op).2 := _root_.step_refines H hH s op hI hop
+
+/-- **what is observable** (`Encode`, `IsIdentity`, pairwise `Equal` of elements; `Encode`, `IsZero`, pairwise `Equal` of
+scalars) of a valid concrete state is computed from its abstraction alone -/
+theorem obs_refines (s : CState) (hI : HInv s) : cobs s = aobs (absS s) := _root_.obs_refines s hI
+
+/-- **C10**: for every finite history from the initial pools, the error tags and the observations after every step are
+those of the abstract model -/
+theorem history_refines (H : Bytes → Bytes) (hH : HashOK H) (ops : List Op) (hops : ∀ op ∈ ops, WfOp op) :
+    crun H initC ops = arun H initA ops := by
+  rw [← initC_abs]; exact run_refines H hH ops hops initC initC_inv
+
+/-- the same from any valid state (histories compose) -/
+theorem history_refines_from (H : Bytes → Bytes) (hH : HashOK H) (ops : List Op) (hops : ∀ op ∈ ops, WfOp op)
+    (s : CState) (hI : HInv s) : crun H s ops = arun H (absS s) ops := run_refines H hH ops hops s hI
+
+/-- **every element remains a valid curve point** (and every scalar canonical) after any history -/
+theorem always_valid (H : Bytes → Bytes) (hH : HashOK H) (ops : List Op) (hops : ∀ op ∈ ops, WfOp op) :
+    HInv (ops.foldl (fun s op => (cstep H s op).1) initC) := (run_state H hH ops hops initC initC_inv).1
+
+/-- **operands that are not the receiver are never changed**: a step leaves every variable other than its receiver
+holding the identical limbs, in both pools, and never resizes a pool -/
+theorem non_receivers_unchanged (H : Bytes → Bytes) (s : CState) (op : Op) :
+    (∀ k, op.recvE ≠ some k → (cstep H s op).1.el[k]? = s.el[k]?) ∧
+    (∀ k, op.recvS ≠ some k → (cstep H s op).1.sc[k]? = s.sc[k]?) ∧
+    (cstep H s op).1.el.length = s.el.length ∧ (cstep H s op).1.sc.length = s.sc.length := step_frame H s op
+
+/-- **copies are independent of their source**: after `e_i.Set(e_j)` (`i ≠ j`), whatever is then done to `e_i` leaves
+`e_j` as it was -/
+theorem copy_independent (H : Bytes → Bytes) (s : CState) (i j : Nat) (hij : i ≠ j) (op : Op) (hr : op.recvE = some i) :
+    (cstep H (cstep H s (.set i j)).1 op).1.el[j]? = s.el[j]? := by
+  rw [(step_frame H _ op).1 j (by rw [hr]; exact fun h => hij (Option.some.inj h))]
+  exact (step_frame H s (.set i j)).1 j (fun h => hij (Option.some.inj h))
+
+/-- non-vacuity: the initial state satisfies the invariant and abstracts to the initial abstract state; all operations
+used by the generators are well-formed -/
+example : HInv initC ∧ absS initC = initA := ⟨initC_inv, initC_abs⟩
+example : WfOp (.add 0 (some 0)) ∧ WfOp (.ssetu 1 5) ∧ WfOp (.dec 2 [0]) :=
+  ⟨trivial, (by decide : (5 : Nat) < W), fun x hx => by simp at hx; omega⟩
+
 end C10
